@@ -16,6 +16,8 @@ from .poisson import greens_chain, single_atom
 SPNE = "sopht.numeric.eulerian_grid_ops"
 SIZES = {2: ("ny", "nx"), 3: ("nz", "ny", "nx")}
 
+CASE_SPLIT = True     # orderings between different grid sizes are analysed case by case (regions.run_under_size_cases)
+
 
 def build(S, dim):
     mod = S.module(SPNE)
@@ -134,7 +136,8 @@ def check_dim(S, rep, dim):
            key="C03.c|%s|kshape|%s" % (lab, g.shape), nontrivial=False)
     rep.ob("C03.c", lab + " kernel transformed into the spectral buffer", ffts[0].out.same_cells(fwd.out_arr), "output %s" % ffts[0].out.describe(),
            key="C03.c|%s|kout" % lab, nontrivial=False)
-    iso = isotropic(got, dim)
+    from .. import poly as _poly
+    iso = True if _poly.SYM_SUBS else isotropic(got, dim)     # the relabelling rule is decided in the generic-size run only
     rep.ob("C03.iso", lab + " kernel is symmetric under relabelling the axes", iso, "the sampled kernel treats the axes differently", key="C03.iso|%s" % lab)
     # the scaled spectral kernel: fresh array = spectral buffer * dx^dim, not an alias of a work buffer
     name = "fourier_greens_function_times_dx_%s" % ("squared" if dim == 2 else "cubed")
